@@ -122,6 +122,7 @@ func runC01(c *Ctx, r *Rec) {
 		checkUnsignedSizeMinus(c, r, "D2-unsigned-size-minus", fds)
 		checkIndexGuardAdmitsLength(c, r, "D2-guard-excludes-the-length", fds)
 		checkNoDynamicEquality(c, r, "D2c-no-dynamic-equality", fds)
+		checkCopiesTile(c, r, "D6-copies-tile", fds)
 	}
 	// ---- D2 normalisers
 	type layer struct {
